@@ -252,7 +252,11 @@ def _guarded(fn, o, recs, ctx, root, detail, site):
 
 def check_state(o, recs, kdev, ctx, root, hist):
     n_acc = [int(np.sum(t.valid_window_boolean_mask)) for t in _trads(o)]
-    judgeable = isinstance(o, HvsrDiffuseField) or (all(n >= 2 for n in n_acc) and _stats_defined(o))
+    if isinstance(o, HvsrDiffuseField):
+        pk = _call(o, "mean_curve_peak", (), "lognormal")
+        judgeable = not (isinstance(pk, tuple) and pk and pk[0] == "raised")
+    else:
+        judgeable = all(n >= 2 for n in n_acc) and _stats_defined(o)
     kind = "diffuse" if isinstance(o, HvsrDiffuseField) else "trad" if isinstance(o, HvsrTraditional) else "azi"
     # ---- plot_single_panel_hvsr_curves --------------------------------------
     for opts in product.deviations(SINGLE_PANEL_SPACE, kdev):
@@ -416,6 +420,11 @@ def judge_table(captured, o, dfn, ctx, root, detail, kind):
         for t in trads:
             m = np.asarray(t.valid_peak_boolean_mask, dtype=bool)
             fs = [float(f) for f in np.asarray(t._main_peak_frq)[m] if not math.isnan(f)]
+            if not fs or (kind == "azi" and len(fs) != int(m.sum())):
+                # an azimuth without a valid peak, or an accepted window without a peak: the
+                # Cheng-weighted statistics are outside their domain (C11's quantifier)
+                ctx.count("period_row_outside_quantifier")
+                return
             per += [1.0 / f for f in fs]
             w += [1.0 / (len(trads) * len(fs))] * len(fs)
         if len(per) >= 2:
